@@ -56,6 +56,21 @@ func (w *sw) port(p *of.PhyPort) { // struct ofp_port, 64 bytes
 
 func elemBytes(m util.Message) []byte { b, _ := m.MarshalBinary(); return b }
 
+// struct ofp_match: type OFPMT_OXM, the length of type+length+fields without the padding,
+// the OXM TLVs (each from the library's field encoder), zero padding to a multiple of 8
+func matchBytes(m *of.Match) []byte {
+	w := &sw{}
+	w.u16(1)
+	w.u16(0)
+	for i := range m.Fields {
+		w.raw(elemBytes(&m.Fields[i]))
+	}
+	binary.BigEndian.PutUint16(w.b[2:], uint16(len(w.b)))
+	m.Type, m.Length = 1, uint16(len(w.b))
+	w.pad((8 - len(w.b)%8) % 8)
+	return w.b
+}
+
 // specSwitchFrame returns the bytes, the expected value, a kind and an optional finding signature
 func (g *G) specSwitchFrame() ([]byte, util.Message, string, string) {
 	xid := uint32(g.r.Bits(32))
@@ -171,7 +186,7 @@ func (g *G) specSwitchFrame() ([]byte, util.Message, string, string) {
 		w.u8(p.Reason)
 		w.u8(p.TableId)
 		w.u64(p.Cookie)
-		w.raw(elemBytes(&p.Match))
+		w.raw(matchBytes(&p.Match))
 		w.pad(2)
 		kind := "packet-in/no-payload"
 		if g.r.Intn(5) != 0 {
@@ -205,7 +220,7 @@ func (g *G) specSwitchFrame() ([]byte, util.Message, string, string) {
 		w.u16(f.HardTimeout)
 		w.u64(f.PacketCount)
 		w.u64(f.ByteCount)
-		w.raw(elemBytes(&f.Match))
+		w.raw(matchBytes(&f.Match))
 		b := w.finish()
 		f.Header.Length = uint16(len(b))
 		return b, f, "flow-removed", ""
@@ -276,7 +291,7 @@ func (g *G) specSwitchFrame() ([]byte, util.Message, string, string) {
 				f.Instructions = append(f.Instructions, in)
 				ib = append(ib, elemBytes(in)...)
 			}
-			mb := elemBytes(&f.Match)
+			mb := matchBytes(&f.Match)
 			f.Length = uint16(48 + len(mb) + len(ib))
 			w.u16(f.Length)
 			w.u8(f.TableId)
